@@ -45,7 +45,7 @@ def render(case):
         elif cl[0] == "s":
             out.append("  storyline %s" % cl[1])
         elif cl[0] == "d":
-            out.append("  edit s/%s/%s/" % (re_escape(cl[1]), cl[2]))
+            out.append("  edit s/%s/%s/" % (cl[1] if len(cl) > 3 and cl[3] == "raw" else re_escape(cl[1]), cl[2]))
     out.append("end")
     return "\n".join(out) + "\n"
 
@@ -327,6 +327,18 @@ def gen_random_case(rng, size):
     for _ in range(rng.pick([0, 0, 0, 1, 1, 2])):
         frm = rng.pick(list(use) + [".", "+", rng.pick(use) + "+", "." + rng.pick(use), rng.pick(use) + rng.pick(use)])
         to = rng.pick(["", ".", rng.pick(use), frm + rng.pick(use), rng.pick(use) + "+" + rng.pick(use), frm + ".", "_"])
+        if rng.chance(1, 3):
+            # patterns that see the boundaries of the acts: the edit works on the storyline joined by single blanks,
+            # so `^` / `$` match once (not once per act) and a blank matches between two acts
+            k = rng.below(4)
+            if k == 0:
+                story.insert(rng.range(0, len(story)), ("d", "^", rng.pick([".", rng.pick(use), rng.pick(use) + " "]), "raw"))
+            elif k == 1:
+                story.insert(rng.range(0, len(story)), ("d", "$", rng.pick([".", rng.pick(use), " " + rng.pick(use)]), "raw"))
+            else:
+                frm = rng.pick([" ", rng.pick(use) + " ", " " + rng.pick(use), rng.pick(use) + " " + rng.pick(use)])
+                story.insert(rng.range(0, len(story)), ("d", frm, rng.pick(["", " ", "+", ".", " . ", rng.pick(use)])))
+            continue
         story.insert(rng.range(0, len(story)), ("d", frm, to))
     # faults: make some storyline invalid
     fault = None
@@ -361,7 +373,9 @@ def gen_random_case(rng, size):
 
 # ---- one batch of full-pipeline cases ----------------------------------------------------
 
-def literal_replace(s, frm, to):
+def literal_replace(s, frm, to, raw=False):
+    if raw:
+        return to + s if frm == "^" else s + to if frm == "$" else s
     return s.replace(frm, to) if frm else s
 
 
@@ -395,7 +409,7 @@ class Pipeline:
         pre = reals_for_prefix[j]
         if not pre.get("Ok"):
             return None          # rejected before the edit: the prefix case itself is judged
-        base = literal_replace(" ".join(pre.get("Story") or []), cls[j][1], cls[j][2])
+        base = literal_replace(" ".join(pre.get("Story") or []), cls[j][1], cls[j][2], raw=len(cls[j]) > 3 and cls[j][3] == "raw")
         return [c for c in cls[:j] if c[0] in "em"] + [("b", base)] + cls[j + 1:]
 
     def run_batch(self, cases, label, check_printed=False):
@@ -410,16 +424,22 @@ class Pipeline:
             allc.append(case)
         texts = [render(c) for c in allc]
         reals = self.parse_many(texts)
-        mres = self.model.ask_many([model_line(c) for c in allc])
         # index prefixes
         real_by_text = {t: r for t, r in zip(texts, reals)}
-        olines, oidx = [], []
-        for i, (case, r) in enumerate(zip(allc, reals)):
+        ocls = []
+        for case in allc:
             pre = {}
             for j, c in enumerate(case["clauses"]):
                 if c[0] == "d":
                     pre[j] = real_by_text[render(dict(case, clauses=case["clauses"][:j]))]
-            ocl = self.oracle_lines(case, pre)
+            ocls.append(self.oracle_lines(case, pre))
+        # the model knows literal edits only: a case with an anchored edit (`^`, `$`) is judged by the denotation oracle
+        # alone (real storyline before the last edit, the substitution applied from outside)
+        has_raw = [any(c[0] == "d" and len(c) > 3 for c in case["clauses"]) for case in allc]
+        mres = self.model.ask_many([model_line(c) if not has_raw[i] else "C06 cols x61" for i, c in enumerate(allc)])
+        olines, oidx = [], []
+        for i, (case, r) in enumerate(zip(allc, reals)):
+            ocl = ocls[i]
             if ocl is None:
                 # the real code must have rejected the whole as well
                 if self.real_of(r) != "err":
@@ -433,10 +453,12 @@ class Pipeline:
             real = self.real_of(r)
             rep.case(("p", texts[i]))
             self.count(case, real, label)
-            if m is None or m == "bad-op":
+            if has_raw[i]:
+                rep.count("anchored-edit (oracle only)")
+            elif m is None or m == "bad-op":
                 self.kdis.append(dict(self.describe(case, r, "model driver: %s" % m)))
                 continue
-            if m.startswith("err"):
+            elif m.startswith("err"):
                 if real != "err":
                     self.kdis.append(self.describe(case, r, "model rejects (%s), real: %s" % (m, real[:60])))
             else:
